@@ -2,15 +2,15 @@
     followed by [Print Assumptions]. *)
 From Coq Require Import ZArith.
 From OCI Require Import Machine Checkers.
-From OCI.proofs Require Import ArithOk Trace InvKnown ChkKnown.
+From OCI.proofs Require Import ArithOk Trace InvKnown ChkKnown IterBase ChkIter ChkAll.
 Open Scope N_scope.
 
-Check known_C02 : forall e, known_env e -> forall progs, wf_progs progs -> forall sched,
+Check all_C02 : forall e, src_env e -> forall progs, wf_progs progs -> forall sched,
   nowrap (c_labels (exec e (init progs) sched)) ->
   chk_C02 e (c_trace (exec e (init progs) sched)) = true.
-Theorem c02_known_kinds : forall e, known_env e -> forall progs, wf_progs progs -> forall sched,
+Theorem c02_index_fidelity : forall e, src_env e -> forall progs, wf_progs progs -> forall sched,
   nowrap (c_labels (exec e (init progs) sched)) ->
   chk_C02 e (c_trace (exec e (init progs) sched)) = true.
-Proof. exact known_C02. Qed.
-Print Assumptions c02_known_kinds.
+Proof. exact all_C02. Qed.
+Print Assumptions c02_index_fidelity.
 
